@@ -134,3 +134,60 @@ Proof.
   - destruct gs as [|g0 gs']; [discriminate|]. cbn [negb]. unfold rslot. rewrite Hk, Ho.
     destruct (g_nodes g) as [|p reps]; [discriminate|]. intro H. eapply nth_error_In; eauto.
 Qed.
+
+(** ---- every entry point ---- *)
+Lemma standalone_entry_replica e has_str optins has_sel sel nnodes nrep rnd i :
+  standalone_entry e has_str optins has_sel sel nnodes nrep rnd = Ok (DReplica i) ->
+  has_str = true /\
+  match e with
+  | EDo | EDoStream | EReceive => hd false optins = true
+  | EDoMulti | EDoMultiStream => forall b, In b optins -> b = true
+  | _ => False
+  end.
+Proof.
+  destruct e; cbn [standalone_entry]; intro H; try discriminate;
+    try (apply standalone_route_replica in H; exact H); apply standalone_route_multi_replica in H; exact H.
+Qed.
+
+Lemma sentinel_entry_replica e replica_only has_str optins :
+  sentinel_entry e replica_only has_str optins = SReplica ->
+  replica_only = true \/
+  (has_str = true /\
+   match e with
+   | EDo | EDoCache | EDoStream | EReceive => hd false optins = true
+   | EDoMulti | EDoMultiCache | EDoMultiStream => forall b, In b optins -> b = true
+   | EDedicated => False
+   end).
+Proof.
+  destruct e; cbn [sentinel_entry]; intro H;
+    try (apply sentinel_pick_replica in H; exact H); try (apply sentinel_pick_multi_replica in H; exact H).
+  destruct replica_only; [now left|discriminate].
+Qed.
+
+(** cluster DoMultiStream: one command of the batch that did not opt in — with or without a key
+    slot, wherever it sits — keeps the whole batch on the write table *)
+Lemma cluster_multistream_no_optin t has_str cs nsel d :
+  (has_str = false \/ exists c, In c cs /\ b_replica c = false) ->
+  cluster_multistream t has_str cs nsel = Ok d ->
+  exists slot, d = cluster_pick t slot false nsel /\
+               match slot with Some s => d = CNode (tb_w t s) | None => d = CAny end.
+Proof.
+  intros Hn. unfold cluster_multistream. destruct cs as [|c0 r]; [discriminate|].
+  assert (E : has_str && forallb b_replica (c0 :: r) = false).
+  { destruct Hn as [->|[c [Hin Hc]]]; [reflexivity|]. apply andb_false_iff. right.
+    destruct (forallb b_replica (c0 :: r)) eqn:F; [|reflexivity]. rewrite forallb_forall in F. rewrite (F c Hin) in Hc. discriminate. }
+  rewrite E.
+  destruct (stream_slot r (b_slot c0)) as [slot| |]; try discriminate. intro H; injection H as <-.
+  exists slot. split; [reflexivity|]. destruct slot; reflexivity.
+Qed.
+
+Lemma cluster_entry_single_no_optin e t has_str c nsel :
+  (e = EDedicated \/ has_str = false \/ b_replica c = false) ->
+  cluster_entry_single e t has_str c nsel = match b_slot c with Some s => CNode (tb_w t s) | None => CAny end.
+Proof.
+  intro H. unfold cluster_entry_single, cluster_pick.
+  assert (E : (match e with EDedicated => false | _ => has_str && b_replica c end) = false).
+  { destruct H as [->|[->|Hc]]; [reflexivity|destruct e; reflexivity|rewrite Hc, andb_false_r; destruct e; reflexivity]. }
+  destruct (b_slot c) as [s|]; [|destruct e; reflexivity].
+  destruct e; cbn in E |- *; try rewrite E; reflexivity.
+Qed.
